@@ -56,7 +56,9 @@ int main(int argc, char** argv) {
     long ncases = 0, ndeliv = 0;
     hz::for_each_case(args, [&](size_t idx, const std::string& line) {
         mj::Value c = mj::parse(line); ++ncases;
-        const std::string& f = c["f"].str(); std::vector<uint8_t> b = bv::bytes_of(c["b"]);
+        const std::string& f = c["f"].str(); std::vector<uint8_t> b;
+        if (c.has("prog")) { for (auto& seg : c["prog"].a) { auto bytes = bv::bytes_of(seg[0]); long cnt = (long)seg[1].as_int(); for (long i = 0; i < cnt; ++i) b.insert(b.end(), bytes.begin(), bytes.end()); } }   // [[bytes, repeat], ..]
+        else b = bv::bytes_of(c["b"]);
         auto report = [&](const char* delivery, const std::string& detail, const Out& base, const Out& got) {
             mj::Value m = hz::rec("mismatch"); m.set("idx", (int64_t)idx); m.set("delivery", delivery); m.set("detail", detail);
             m.set("base_ok", base.ok); m.set("base", base.ok ? base.ev : base.ec); m.set("got_ok", got.ok); m.set("got", got.ok ? got.ev : got.ec); m.set("case", c); hz::emit_mismatch(m);
